@@ -72,6 +72,25 @@ func fingerprintOf(c *ucfg.Config) fp {
 // gained classifies a difference between two pictures of the same tree: the
 // first node that differs is a container that had no entries and has some now.
 func gained(before, after fp) string {
+	if len(before.walk) == len(after.walk) {
+		// the two pictures differ in nothing but the source recorded in the
+		// metadata of their nodes
+		same, diff := true, false
+		for i, n := range before.walk {
+			m := after.walk[i]
+			if n.Source != m.Source {
+				diff = true
+				m.Source = n.Source
+			}
+			if n != m {
+				same = false
+				break
+			}
+		}
+		if same && diff {
+			return ":only-metadata-source-of-nodes-changed"
+		}
+	}
 	for i, n := range before.walk {
 		if i >= len(after.walk) {
 			return ""
@@ -419,7 +438,13 @@ func (check) Run(seed int64, tier string, idx int, verbose bool) harness.Result 
 				res.Ev("source_object_references", int64(withObjRefs(r, st, "")))
 			}
 		}
-		srcRoot, err := ucfg.NewFrom(st.ToGo(), rdOpts...)
+		// a quarter of the sources know where they come from (MetaData), the
+		// others have no metadata on their nodes
+		srcOpts := rdOpts
+		if r.Intn(4) == 0 {
+			srcOpts = append(append([]ucfg.Option{}, rdOpts...), ucfg.MetaData(ucfg.Meta{Source: "src.yml"}))
+		}
+		srcRoot, err := ucfg.NewFrom(st.ToGo(), srcOpts...)
 		res.Eval(1)
 		if err != nil {
 			fail("newfrom-error", "NewFrom(%s): %v", st, err)
@@ -541,6 +566,19 @@ func (check) Run(seed int64, tier string, idx int, verbose bool) harness.Result 
 			mo = append(mo, pol.o)
 		}
 		res.SetAdd("policy", pol.n)
+		if r.Intn(3) == 0 {
+			// the merge (and every later merge of the history) names the
+			// source of what it merges: that is a statement about the
+			// destination only
+			mo = append(mo, ucfg.MetaData(ucfg.Meta{Source: "overlay.yml"}))
+			pol.n += "+metadata"
+			res.Ev("cases_merging_with_metadata_option", 1)
+			for _, n := range ucfg.VerifWalk(src) {
+				if n.Source == "" {
+					res.Ev("source_nodes_without_metadata_meeting_metadata_merge", 1)
+				}
+			}
+		}
 
 		// --- entry point: Config.Merge, or a cfgutil.Collector that the source
 		// (and further sources before/after it) is added to ---
@@ -1031,6 +1069,14 @@ func (check) Run(seed int64, tier string, idx int, verbose bool) harness.Result 
 	if panicked {
 		fail("panic", "panic %q at %s", pv, where)
 	}
+	// second part of every case: operands that overlap the destination
+	mainLog := log
+	log = nil
+	panicked, pv, where = harness.Safe(func() { overlapCase(r, res, &log, fail) })
+	if panicked {
+		fail("panic", "panic %q at %s", pv, where)
+	}
+	log = append(append(mainLog, "--- overlapping operands ---"), log...)
 	if idx < 2 {
 		res.Sample = log
 	}
@@ -1038,6 +1084,227 @@ func (check) Run(seed int64, tier string, idx int, verbose bool) harness.Result 
 		fmt.Println(strings.Join(log, "\n"))
 	}
 	return res.Done()
+}
+
+// canonOf: address-free picture of a tree (stored kinds, values, unresolved
+// expressions) plus its evaluated contents.
+func canonOf(c *ucfg.Config) []string {
+	var out []string
+	for _, n := range ucfg.VerifWalk(c) {
+		out = append(out, fmt.Sprintf("%s|%s|%q", n.Walk, n.Kind, n.Text))
+	}
+	return append(out, "unpack|"+readAll(c).unpack)
+}
+
+// below: p names a setting strictly below q.
+func below(p, q string) bool {
+	return p != q && (q == "" || strings.HasPrefix(p, q+"."))
+}
+
+func region(canon []string, p string) string {
+	var b strings.Builder
+	for _, l := range canon {
+		w := l[:strings.Index(l, "|")]
+		if w != "unpack" && (w == p || below(w, p)) {
+			b.WriteString(l + "\n")
+		}
+	}
+	return b.String()
+}
+
+// overlapCase: source and destination of a Merge are parts of ONE tree (the
+// source is a child of the destination, an ancestor of it, the destination
+// itself, or a sibling subtree). The statement does not exempt them: merging
+// from a config means merging what the config holds when Merge is called.
+// Oracle: a differential twin. Three identical trees are built; the merge in
+// question runs inside tree A, the reference run merges the source handle of
+// the untouched tree C into the destination handle of tree B (two trees that
+// share nothing: the plain case the rest of this check is about). A and B must
+// end up with the same contents, for every repetition of A. For sibling
+// subtrees the source must not move at all and share nothing afterwards.
+func overlapCase(r *rand.Rand, res *harness.R, log *[]string, fail func(sig, format string, a ...interface{})) {
+	listRoot := r.Intn(4) == 0
+	refs := r.Intn(2) == 0
+	protect := map[string]bool{"x": true, "y": true, "y.z": true}
+	var st *model.Node
+	if listRoot {
+		st = listTop(r, "v0", refs)
+		protect = map[string]bool{"0": true, "1": true, "1.z": true}
+	} else {
+		st = gen.TopDict(r, treeOpts, 3)
+		if refs {
+			withRefs(r, st)
+		}
+		st.Set("x", model.P("vx"))
+		st.Set("y", model.Dict().Set("z", model.P("vz")))
+	}
+	pre, pk := r.Intn(3) == 0, r.Int63()
+	var buildErr error
+	build := func(lg *[]string) *ucfg.Config {
+		c, err := ucfg.NewFrom(st.ToGo(), rdOpts...)
+		res.Eval(1)
+		if err != nil {
+			buildErr = err
+			return nil
+		}
+		if pre {
+			prehistory(rand.New(rand.NewSource(pk)), c, protect, "tree", lg)
+		}
+		return c
+	}
+	*log = append(*log, fmt.Sprintf("tree=%s", st))
+	probe := build(log)
+	if probe == nil {
+		fail("newfrom-error", "NewFrom(%s): %v", st, buildErr)
+		return
+	}
+	var paths []string
+	isList := map[string]bool{}
+	for _, n := range subs(ucfg.VerifWalk(probe)) {
+		paths = append(paths, n.Walk)
+		isList[n.Walk] = n.NArr > 0
+	}
+	// --- which parts of the tree meet ---
+	kind := []string{"child-of-destination", "ancestor-of-destination", "the-destination-itself", "sibling-subtree"}[r.Intn(4)]
+	pd, ps := "", ""
+	type pair struct{ d, s string }
+	var cand []pair
+	for _, a := range paths {
+		for _, b := range paths {
+			switch {
+			case kind == "child-of-destination" && below(b, a),
+				kind == "ancestor-of-destination" && below(a, b),
+				kind == "the-destination-itself" && a == b,
+				kind == "sibling-subtree" && a != b && !below(a, b) && !below(b, a):
+				cand = append(cand, pair{a, b})
+			}
+		}
+	}
+	if len(cand) == 0 {
+		kind = "the-destination-itself"
+	} else {
+		c := cand[r.Intn(len(cand))]
+		pd, ps = c.d, c.s
+	}
+	embedded := r.Intn(4) == 0
+	pols := []struct {
+		n string
+		o ucfg.Option
+	}{{"default", nil}, {"replace", ucfg.ReplaceValues}, {"arr-replace", ucfg.ReplaceArrValues}, {"append", ucfg.AppendValues}, {"prepend", ucfg.PrependValues}}
+	pol := pols[r.Intn(len(pols))]
+	mo := []ucfg.Option{sepOpt}
+	if pol.o != nil {
+		mo = append(mo, pol.o)
+	}
+	if r.Intn(4) == 0 {
+		mo = append(mo, ucfg.MetaData(ucfg.Meta{Source: "overlay.yml"}))
+		pol.n += "+metadata"
+	}
+	handle := func(c *ucfg.Config, p string) *ucfg.Config {
+		if p == "" {
+			return c
+		}
+		h, err := c.Child(p, -1, sepOpt)
+		if err != nil {
+			return nil
+		}
+		return h
+	}
+	from := func(h *ucfg.Config) interface{} {
+		if embedded {
+			return map[string]interface{}{"emb": h}
+		}
+		return h
+	}
+	how := "direct"
+	if embedded {
+		how = "in-map"
+	}
+	*log = append(*log, fmt.Sprintf("%s: tree.Child(%q).Merge(%s tree.Child(%q), %s)", kind, pd, how, ps, pol.n))
+	res.SetAdd("overlap_kind", kind+"/"+how)
+	res.Ev("overlap_cases", 1)
+
+	// --- reference run: the same merge between two trees that share nothing ---
+	var dummy []string
+	B, C := build(&dummy), build(&dummy)
+	bd, cs := handle(B, pd), handle(C, ps)
+	if bd == nil || cs == nil {
+		return
+	}
+	bBefore := canonOf(B)
+	if c := canonOf(probe); strings.Join(c, "\n") != strings.Join(bBefore, "\n") {
+		res.Inconc("twin trees differ before the merge")
+		return
+	}
+	err := bd.Merge(from(cs), mo...)
+	res.Eval(1)
+	if err != nil {
+		// a refused merge may leave a partial result: nothing is compared
+		res.Ev("overlap_reference_merge_refused", 1)
+		return
+	}
+	want := canonOf(B)
+	wantText := strings.Join(want, "\n")
+	// what a merge of the snapshot does to the part of the tree the source is
+	srcPartMoves := region(bBefore, ps) != region(want, ps)
+	if !srcPartMoves {
+		res.Ev("overlap_cases_source_part_must_stay", 1)
+	}
+	q := ""
+	if isList[ps] {
+		q = ":list-source"
+	}
+
+	// --- the merge inside one tree, repeated (the library may iterate maps) ---
+	var first string
+	for rep := 0; rep < 3; rep++ {
+		A := probe
+		if rep > 0 {
+			A = build(&dummy)
+		}
+		hd, hs := handle(A, pd), handle(A, ps)
+		if hd == nil || hs == nil {
+			return
+		}
+		aBefore := canonOf(A)
+		srcBefore := fingerprintOf(hs)
+		err := hd.Merge(from(hs), mo...)
+		res.Eval(1)
+		if err != nil {
+			fail("overlapping-operand:"+kind+q+":merge-refused", "Merge returned %v (the same merge from an identical separate tree succeeds)", err)
+			return
+		}
+		got := canonOf(A)
+		gotText := strings.Join(got, "\n")
+		if rep == 0 {
+			first = gotText
+		} else if gotText != first {
+			fail("overlapping-operand:"+kind+q+":result-varies-between-identical-runs", "run 0 and run %d of the same merge on identical trees end differently: %q vs %q", rep, firstDiff(first, gotText), firstDiff(gotText, first))
+			return
+		}
+		if kind == "sibling-subtree" {
+			srcAfter := fingerprintOf(hs)
+			if srcAfter.text != srcBefore.text {
+				fail("overlapping-operand:"+kind+q+":source-modified-by-merge"+gained(srcBefore, srcAfter), "fingerprint of the source subtree changed: %q vs %q", firstDiff(srcBefore.text, srcAfter.text), firstDiff(srcAfter.text, srcBefore.text))
+				return
+			}
+			if dw, sw, a, found := aliased(fingerprintOf(hd), srcAfter); found {
+				fail("overlapping-operand:"+kind+q+":aliasing", "destination node %q and source node %q are the same object (%#x)", dw, sw, a)
+				return
+			}
+		}
+		if gotText != wantText {
+			what := "result-differs-from-merge-of-snapshot"
+			if !srcPartMoves && region(aBefore, ps) != region(got, ps) {
+				// merging what the source held leaves that part of the tree
+				// as it was, but it is different now
+				what = "source-modified-by-merge"
+			}
+			fail("overlapping-operand:"+kind+q+":"+what, "tree after the merge differs from the tree after merging the same source taken from an identical separate tree: got %q want %q; source part before=%q after=%q", firstDiff(gotText, wantText), firstDiff(wantText, gotText), region(aBefore, ps), region(got, ps))
+			return
+		}
+	}
+	res.Ev("overlap_results_equal_to_merge_of_snapshot", 1)
 }
 
 func firstDiff(a, b string) string {
